@@ -1,6 +1,224 @@
-/-! Driver entry for property C08 (stub: not implemented yet). -/
-namespace HeartwoodModel.Driver.C08
+import HeartwoodModel.Model.Patch
+import HeartwoodModel.Driver.Util
+/-!
+Driver entry for C08 (also the patch half of C07, which imports this file).
 
-def run (_args : List String) : String := "unimplemented"
+Case: `patch <docs> <heads> <order> <op0> <op1> …`
+* `docs`  = `;`-separated `delegates/threshold` (delegates `,`-separated actor numbers);
+* `heads` = per actor the commit index of its default branch or `x` (used by the harness only);
+* `order` = `,`-separated indices of the ops (≠ 0) in the order the REAL evaluation applied them, `-` if none;
+* `op`    = `author:doc:ts:tips:act|act|…` (`doc` index or `x` = no resource; `tips` = parent op indices or `-`);
+  the id of an op is its position. Action syntax: see `parseAction`.
+Output: `init-err` / `init-panic` / `bad-order`, or
+`r=<o|e|p per applied op>;t=…;au=…;st=…;lb=…;as=…;mg=…;rv=…;ri=…` (see `showPatch`).
+-/
+namespace HeartwoodModel.Driver.C08
+open HeartwoodModel.Cob HeartwoodModel.Patch HeartwoodModel.Driver.Util
+
+def optNat? (s : String) : Option (Option Nat) :=
+  if s == "-" then some none else (nat? s).map some
+
+def plusNats? (s : String) : Option (List Nat) :=
+  if s == "-" || s.isEmpty then some [] else (splitOn s '+').mapM nat?
+
+def verdict? (s : String) : Option (Option Bool) :=
+  if s == "-" then some none else if s == "a" then some (some true) else if s == "r" then some (some false)
+  else none
+
+def parseAction (s : String) : Option Action :=
+  match splitOn s ',' with
+  | ["ed", t] => do some (.edit (← nat? t))
+  | ["lb", ls] => do some (.label (← plusNats? ls))
+  | ["lc", l] =>
+    if l == "o" then some (.lifecycle .opened) else if l == "d" then some (.lifecycle .draft)
+    else if l == "a" then some (.lifecycle .archived) else none
+  | ["as", xs] => do some (.assign (← plusNats? xs))
+  | ["mg", r, c, a] => do
+    let anc ← (if a == "n" then some Anc.no else if a == "y" then some Anc.yes
+               else if a == "e" then some Anc.err else none)
+    some (.merge (← nat? r) (← nat? c) anc)
+  | ["rv", r, sm, v, ls] => do some (.review (← nat? r) (← optNat? sm) (← verdict? v) (← plusNats? ls))
+  | ["rve", r, sm, v, ls] => do some (.reviewEdit (← nat? r) (← optNat? sm) (← verdict? v) (← plusNats? ls))
+  | ["rvr", r] => do some (.reviewRedact (← nat? r))
+  | ["rc", r, b, rt] => do some (.reviewComment (← nat? r) (← nat? b) (← optNat? rt))
+  | ["rce", r, c, b] => do some (.reviewCommentEdit (← nat? r) (← nat? c) (← nat? b))
+  | ["rcr", r, c] => do some (.reviewCommentRedact (← nat? r) (← nat? c))
+  | ["rca", r, c] => do some (.reviewCommentReact (← nat? r) (← nat? c))
+  | ["rcs", r, c] => do some (.reviewCommentResolve (← nat? r) (← nat? c))
+  | ["rcu", r, c] => do some (.reviewCommentUnresolve (← nat? r) (← nat? c))
+  | ["rn", d] => do some (.revision (← nat? d))
+  | ["rne", r, d] => do some (.revisionEdit (← nat? r) (← nat? d))
+  | ["rna", r] => do some (.revisionReact (← nat? r))
+  | ["rnr", r] => do some (.revisionRedact (← nat? r))
+  | ["dc", r, b, rt] => do some (.revisionComment (← nat? r) (← nat? b) (← optNat? rt))
+  | ["dce", r, c, b] => do some (.revisionCommentEdit (← nat? r) (← nat? c) (← nat? b))
+  | ["dcr", r, c] => do some (.revisionCommentRedact (← nat? r) (← nat? c))
+  | ["dca", r, c] => do some (.revisionCommentReact (← nat? r) (← nat? c))
+  | _ => none
+
+def parseDoc (s : String) : Option Doc :=
+  match splitOn s '/' with
+  | [ds, t] => do some { delegates := (← nats? ds), threshold := (← nat? t) }
+  | _ => none
+
+def parseDocs (s : String) : Option (List Doc) := (splitOn s ';').mapM parseDoc
+
+def parseHeads (s : String) : Option Unit :=
+  if (splitOn s ',').all (fun h => h == "x" || (nat? h).isSome) then some () else none
+
+/-- An op together with its DAG parents (tips). -/
+structure WireOp (A : Type) where
+  author : Nat
+  doc : Option Doc
+  tips : List Nat
+  actions : List A
+
+def parseWireOp {A : Type} (parseA : String → Option A) (docs : List Doc) (s : String) :
+    Option (WireOp A) :=
+  match splitOn s ':' with
+  | [au, d, ts, tips, acts] => do
+    let au ← nat? au
+    let doc ← (if d == "x" then some none else do
+      let i ← nat? d
+      let doc ← docs[i]?
+      some (some doc))
+    let _ ← nat? ts
+    let tips ← nats? tips
+    let acts ← (splitOn acts '|').mapM parseA
+    some { author := au, doc, tips, actions := acts }
+  | _ => none
+
+/-- Consistency of the reported evaluation order with the pruning rule of `ChangeGraph::evaluate`:
+an entry is evaluated after, and only if, all its parents were applied successfully; `results` are the
+model's own verdicts. Every entry not in `order` must have a parent that is not applied. -/
+def orderOk (tips : List (List Nat)) (order : List Nat) (okFlags : List Bool) : Bool :=
+  let n := tips.length
+  let rec go (ord : List Nat) (flags : List Bool) (appliedSet : List Nat) (seen : List Nat) :
+      Option (List Nat × List Nat) :=
+    match ord, flags with
+    | [], _ => some (appliedSet, seen)
+    | i :: rest, f :: fs =>
+      if i = 0 || i ≥ n || seen.contains i then none
+      else match tips[i]? with
+        | none => none
+        | some ps =>
+          if ps.all (fun q => appliedSet.contains q) then
+            go rest fs (if f then i :: appliedSet else appliedSet) (i :: seen)
+          else none
+    | _ :: _, [] => none
+  match go order okFlags [0] [0] with
+  | none => false
+  | some (appliedSet, seen) =>
+    (List.range n).all fun i =>
+      seen.contains i ||
+        match tips[i]? with
+        | some ps => ps.isEmpty || ps.any (fun q => !appliedSet.contains q)
+        | none => false
+
+/-! ### printing -/
+
+def dash (s : String) : String := if s.isEmpty then "-" else s
+
+def showList (sep : String) (xs : List String) : String := dash (joinWith sep xs)
+
+def insertBy {α : Type} (key : α → Nat) (x : α) : List α → List α
+  | [] => [x]
+  | y :: ys => if key x ≤ key y then x :: y :: ys else y :: insertBy key x ys
+
+def sortBy {α : Type} (key : α → Nat) (xs : List α) : List α := xs.foldr (insertBy key) []
+
+def showOptNat : Option Nat → String
+  | none => "-"
+  | some n => toString n
+
+def showEdits (es : List (Nat × Nat)) : String :=
+  showList "," (es.map fun e => s!"{e.1}.{e.2}")
+
+def showThread (isep fsep : String) (t : Thread) : String :=
+  showList isep ((sortBy (·.1) t.comments).map fun (id, c) =>
+    match c with
+    | none => s!"{id}{fsep}x"
+    | some c =>
+      s!"{id}{fsep}{c.author}{fsep}{showEdits c.edits}{fsep}{showOptNat c.replyTo}{fsep}{showBool c.resolved}")
+
+def showVerdict : Option Bool → String
+  | none => "-"
+  | some true => "a"
+  | some false => "r"
+
+def showReview (reviewer : Nat) (rv : Review) : String :=
+  s!"{reviewer}={rv.id}={rv.author}={showOptNat rv.summary}={showVerdict rv.verdict}=" ++
+  s!"{showList "," (rv.labels.map toString)}={showThread "!" "^" rv.comments}"
+
+def showRevision (id : Nat) : Option Revision → String
+  | none => s!"{id}~x"
+  | some r =>
+    s!"{id}~{r.author}~{showEdits r.description}~{showThread "&" "=" r.discussion}~" ++
+    showList "&" ((sortBy (·.1) r.reviews).map fun (a, rv) => showReview a rv)
+
+def pairKey (p : Nat × Nat) : Nat := p.1 * 1000003 + p.2
+
+def showState : PState → String
+  | .draft => "draft"
+  | .archived => "archived"
+  | .opened [] => "open"
+  | .opened cs => "open:" ++ joinWith "+" ((sortBy pairKey cs).map fun (r, c) => s!"{r}.{c}")
+  | .merged r c => s!"merged:{r}.{c}"
+
+def showPatch (p : Patch) : String :=
+  s!"t={p.title};au={p.author};st={showState p.state};lb={showList "+" (p.labels.map toString)};" ++
+  s!"as={showList "+" (p.assignees.map toString)};" ++
+  s!"mg={showList "+" ((sortBy (·.1) p.merges).map fun (a, (r, c)) => s!"{a}.{r}.{c}")};" ++
+  s!"rv={showList "+" ((sortBy (·.1) p.revisions).map fun (id, r) => showRevision id r)};" ++
+  "ri=" ++ showList "+" ((sortBy (·.1) p.reviews).map fun (id, l) =>
+    match l with
+    | none => s!"{id}.x"
+    | some (r, a) => s!"{id}.{r}.{a}")
+
+def showRes {α : Type} : Except Err α → String
+  | .ok _ => "o"
+  | .error .panic => "p"
+  | .error _ => "e"
+
+def toOp (i : Nat) (w : WireOp Action) : Op :=
+  { id := i, author := w.author, doc := w.doc, actions := w.actions }
+
+/-- Evaluate in the given order, recording the verdict for each entry (a rejected entry leaves the
+state unchanged: `Patch.step`). -/
+def evalOrder (ops : List (WireOp Action)) : Patch → List Nat → List String → List Bool →
+    Option (Patch × List String × List Bool)
+  | p, [], rs, fs => some (p, rs.reverse, fs.reverse)
+  | p, i :: rest, rs, fs =>
+    match ops[i]? with
+    | none => none
+    | some w =>
+      let r := op p (toOp i w)
+      evalOrder ops (step p (toOp i w)) rest (showRes r :: rs) ((match r with | .ok _ => true | _ => false) :: fs)
+
+def runPatch (args : List String) : String :=
+  match args with
+  | docs :: heads :: order :: ops =>
+    match parseDocs docs, parseHeads heads, nats? order with
+    | some docs, some _, some order =>
+      match ops.mapM (parseWireOp parseAction docs) with
+      | some (root :: rest) =>
+        let all := root :: rest
+        match fromRoot (toOp 0 root) with
+        | .error .panic => "init-panic"
+        | .error _ => "init-err"
+        | .ok p0 =>
+          match evalOrder all p0 order [] [] with
+          | none => "bad-op"
+          | some (p, rs, fs) =>
+            if orderOk (all.map (·.tips)) order fs then s!"r={dash (joinWith "" rs)};{showPatch p}"
+            else "bad-order"
+      | _ => "bad-op"
+    | _, _, _ => "bad-op"
+  | _ => "bad-op"
+
+def run (args : List String) : String :=
+  match args with
+  | "patch" :: rest => runPatch rest
+  | _ => "bad-op"
 
 end HeartwoodModel.Driver.C08
